@@ -617,8 +617,13 @@ impl LinkCongestionState {
         let sane_observed = (observed_bps as f64).min(CC_OUTLIER_FACTOR * baseline) as u64;
 
         // First non-bootstrap tick: seed the target from observed throughput
-        // (or a conservative floor if no traffic yet).
-        if self.target_bps == MIN_TARGET_BPS {
+        // (or a conservative floor if no traffic yet). `self.state` is still
+        // the previous tick's state here, so this fires exactly once per
+        // bootstrap exit. Testing `target_bps == MIN_TARGET_BPS` alone also
+        // matched a target that a back-off (or a drain) had just walked down
+        // to the floor, and re-seeded it to >= INITIAL_TARGET_BPS on the next
+        // tick: a x10 jump on a link the controller had just finished cutting.
+        if self.state == CcState::Bootstrap && self.target_bps == MIN_TARGET_BPS {
             let seed = sane_observed.max(INITIAL_TARGET_BPS);
             self.target_bps = seed.clamp(MIN_TARGET_BPS, MAX_TARGET_BPS);
         }
